@@ -1,9 +1,10 @@
 """C20 — the auto-reloader never loses a reload request.
 
 Structural clauses decided on the MIR of minijinja-autoreload (all paths of acquire_env / Notifier):
- A1 reset-before-rebuild: `should_reload = false` is written only by `prepare_and_mark_reload`, which is called only
-    from `acquire_env`, where the call dominates the creator call and `clear_templates` and is not reachable from
-    them again (a request arriving during the rebuild leaves the flag set).
+ A1 reset-before-rebuild: every `should_reload = false` write is in `acquire_env` or in a function called only from
+    it (the functions are found by the write, not by name); each reset site dominates the creator call and
+    `clear_templates` and is not reachable from them again (a request arriving during the rebuild leaves the flag
+    set).
  A2 rebuild-only-on-demand: creator / clear_templates are unreachable once the true edges of
     `cached.is_none()` and `notifier.should_reload()` are removed.
  A3 every access to a NotifierImpl field goes through a MutexGuard deref; the guard taken at entry is the one moved
@@ -17,7 +18,6 @@ from .. import cfg, flow, errflow
 from ..facts import op_place, const_int
 
 ACQ = "minijinja_autoreload::AutoReloader::acquire_env"
-PREP = "minijinja_autoreload::Notifier::prepare_and_mark_reload"
 REQ = "minijinja_autoreload::Notifier::request_reload"
 SHOULD = "minijinja_autoreload::Notifier::should_reload"
 IMPL = "minijinja_autoreload::NotifierImpl"
@@ -101,7 +101,6 @@ def run(ctx):
                "the flag set) is a paper argument over the checked facts")
     prog = ctx.prog
     acq = prog.fn(ACQ)
-    prep = prog.fn(PREP)
 
     writes = flag_writes(prog)
     resets = [(f, bb) for f, bb, v in writes if v == 0]
@@ -111,15 +110,27 @@ def run(ctx):
     for f, bb in odd:
         ctx.ob("C20.A1.flag-write-is-constant", f.path, False, "should_reload written with a non-constant", f.where(bb))
     # A1
-    for f, bb in resets:
-        ctx.ob("C20.A1.only-prepare-resets", f.path, f.path == PREP,
-               "`should_reload = false` outside prepare_and_mark_reload", f.where(bb))
-    ctx.ob("C20.A1.prepare-resets-flag", PREP, any(f.path == PREP for f, _ in resets),
-           "prepare_and_mark_reload no longer resets should_reload: every acquire_env would rebuild", prep.loc)
-    for c in prog.calls_of(PREP):
-        ctx.ob("C20.A1.prepare-called-only-by-acquire", c.fn.path, c.fn.path == ACQ, "", c.fn.where(c.bb))
-    preps = acq.calls_to(PREP)
-    ctx.floor("C20 prepare_and_mark_reload call sites in acquire_env", len(preps), 1)
+    # the functions that reset the flag are found by what they do (a `should_reload = false` write), not by name;
+    # a reset *site* is the write itself when it is in acquire_env, else the call of the resetting function
+    class Site:
+        def __init__(self, bb, name, call=None):
+            self.bb, self.name, self.call = bb, name, call
+    resetters = sorted({f.path for f, _ in resets})
+    preps = [Site(bb, "should_reload = false") for f, bb in resets if f.path == ACQ]
+    for r in resetters:
+        if r == ACQ:
+            continue
+        cs = prog.calls_of(r)
+        ctx.ob("C20.A1.resetter-is-reachable", r, bool(cs), "function resets the flag but is never called", prog.fn(r).loc)
+        for c in cs:
+            ctx.ob("C20.A1.reset-called-only-by-acquire", "%s<-%s" % (r.split("::")[-1], c.fn.path), c.fn.path == ACQ,
+                   "`should_reload = false` (through %s) outside acquire_env: a pending request can be erased "
+                   "without a rebuild" % r, c.fn.where(c.bb))
+            if c.fn.path == ACQ:
+                preps.append(Site(c.bb, r, c))
+    ctx.ob("C20.A1.acquire-resets-flag", ACQ, bool(preps),
+           "acquire_env never resets should_reload: every later acquire_env would rebuild although nothing was "
+           "requested", acq.loc)
     creators = creator_calls(acq)
     clears = acq.calls_to(CLEAR)
     ctx.floor("C20 creator call sites in acquire_env", len(creators), 1)
@@ -131,7 +142,7 @@ def run(ctx):
                    "the flag reset does not dominate this rebuild", acq.where(c.bb))
             ctx.ob("C20.A1.no-reset-after-rebuild", "%s#%d" % (kind, n),
                    not any(pc.bb in cfg.reach_from_succs(acq, c.bb) for pc in preps),
-                   "prepare_and_mark_reload (flag reset) is reachable after the rebuild: a request that arrived "
+                   "a flag reset is reachable after the rebuild: a request that arrived "
                    "during the rebuild is erased", acq.where(c.bb))
     if not preps:
         return
@@ -202,8 +213,10 @@ def run(ctx):
 
     # A4: no path from the reset to a return loses the request
     setters = {f.path for f, _ in sets}
-    split = errflow.ok_err_blocks(acq, pc)
-    ctx.need(split is not None and split[0], "C20.A4: result of prepare_and_mark_reload is not matched")
+    split = errflow.ok_err_blocks(acq, pc.call) if pc.call is not None and \
+        acq.locals[pc.call.dest["l"]].get("adt") == "core::result::Result" else None
+    if split is None or not split[0]:
+        split = (set(acq.succ[pc.bb]), set())
     events = set()
     for c in acq.calls():
         if c.name == CLEAR or c.name in setters:
@@ -256,5 +269,5 @@ def run(ctx):
         ctx.ob("C20.A5.fs-callback-sets-flag", "with_fs_watcher", bool(fs_sets),
                "the file-watcher callback no longer sets should_reload", "")
     ctx.count("functions analysed", len([f for f in prog.fns.values() if f.crate == "minijinja_autoreload"]))
-    ctx.sample({"flag setters": sorted(setters), "reset": PREP, "demand tests": demand,
+    ctx.sample({"flag setters": sorted(setters), "resetters": resetters, "demand tests": demand,
                 "events": sorted(acq.where(b) for b in events)})
